@@ -179,7 +179,14 @@ def term_string_of_type(state, gap_id, T, variant=0):
     name = T.name if T.is_tconst() else None
     lits = []
     if name in ('nat', 'int', 'real'):
-        lits = ['(0::%s)' % name, '(1::%s)' % name, '(2::%s)' % name]
+        # numerals need the constants they abbreviate (theorems early in theory nat precede bit0 / of_nat)
+        from kernel import theory
+        have = lambda c: theory.thy.has_term_sig(c)
+        lits = ['(0::%s)' % name] if have('zero') else []
+        if have('one'):
+            lits.append('(1::%s)' % name)
+        if have('one') and have('bit0') and have('of_nat'):
+            lits.append('(2::%s)' % name)
     elif name == 'bool':
         lits = ['true', 'false']
     pool = cands + lits
